@@ -38,7 +38,14 @@ Section QueryAddr.
   Notation sp := (sp ffun afun regex_match).
   Notation holds := (holds ffun afun regex_match).
 
-  Definition bq_test (root : value) (b : bq) (v : value) : bool :=
+  (* @ inner == $ steps: deep equality with the value the `$` path offers; when it offers nothing, the library's both-absent
+     rule — every member is kept exactly when no member has the inner value either (the verdict looks at all the members) *)
+  Definition peq_test (i j : list rstep) (root : value) (vals : list value) (v : value) : bool :=
+    match root_entry j root with
+    | Some w => match reach1 i v with Some a => deep_eq a w | None => false end
+    | None => negb (existsb (fun x => negb (isE (reach1 i x))) vals)
+    end.
+  Definition bq_test (root : value) (vals : list value) (b : bq) (v : value) : bool :=
     match b with
     | BE i => reaches i v
     | BN i => negb (reaches i v)
@@ -50,15 +57,18 @@ Section QueryAddr.
                    | Some f => entry_test o f (reach1 i v)
                    | None => false
                    end
+    | BPQ i ne j => if ne then negb (peq_test i j root vals v) else peq_test i j root vals v
     end.
-  Definition dnf_test (root : value) (d : list (list bq)) (v : value) : bool := existsb (fun c => forallb (fun b => bq_test root b v) c) d.
+  Definition dnf_test (root : value) (vals : list value) (d : list (list bq)) (v : value) : bool :=
+    existsb (fun c => forallb (fun b => bq_test root vals b v) c) d.
 
-  Lemma bq_ok_steps b : bq_ok b = true -> forallb rstep_ok (match b with BE i | BN i | BC i _ _ | BL i _ _ | BRE i | BRN i | BCR i _ _ => i end) = true.
+  Lemma bq_ok_steps b : bq_ok b = true -> forallb rstep_ok (match b with BE i | BN i | BC i _ _ | BL i _ _ | BRE i | BRN i | BCR i _ _ | BPQ i _ _ => i end) = true.
   Proof.
-    destruct b as [i|i|i o lit|i ne l|j|j|i o j]; cbn [bq_ok]; intros H; try exact H.
+    destruct b as [i|i|i o lit|i ne l|j|j|i o j|i ne j]; cbn [bq_ok]; intros H; try exact H.
     - apply andb_true_iff in H; destruct H as [H _]; apply andb_true_iff in H; exact (proj1 H).
     - apply andb_true_iff in H; destruct H as [H _]; apply andb_true_iff in H; exact (proj1 H).
     - apply andb_true_iff in H; destruct H as [H _]. apply andb_true_iff in H; destruct H as [H _]. apply andb_true_iff in H; exact (proj1 H).
+    - apply andb_true_iff in H; destruct H as [H _]; apply andb_true_iff in H; exact (proj1 H).
   Qed.
 
   (* ---------- the `$` operand ---------- *)
@@ -213,10 +223,54 @@ Section QueryAddr.
     rewrite E0. rewrite <- (map_length (reach1 i) vals). rewrite (cmp_holds_direct l), map_map. reflexivity.
   Qed.
 
-  Lemma holds_bq b root vals : bq_ok b = true -> small root -> Forall small vals ->
-    holds (bq_query cfg parse_float b) root vals = map (bq_test root b) vals.
+  Lemma cmp_holds_deep e es :
+    Spec.cmp_holds regex_match CDeepEq (List.length es) (if existsb (fun x => negb (isE x)) es then es else [None]) e =
+    map (fun x => match e with
+                  | Some w => match x with Some a => deep_eq a w | None => false end
+                  | None => negb (existsb (fun x => negb (isE x)) es)
+                  end) es.
   Proof.
-    intros Hb Hr Hv. pose proof (bq_ok_steps b Hb) as Hs. destruct b as [i|i|i o lit|i ne l|j|j|i o j]; cbn [bq_query bq_test].
+    unfold Spec.cmp_holds. cbv zeta.
+    assert (Hv : forall x, validate_to CDeepEq x = x) by reflexivity.
+    assert (Hnone : existsb (fun x => negb (isE x)) es = false -> forall x, In x es -> x = None).
+    { intros Ee x Hin. destruct x as [a|]; [|reflexivity]. exfalso.
+      assert (existsb (fun x => negb (isE x)) es = true) by (apply existsb_exists; exists (Some a); split; [exact Hin|reflexivity]). congruence. }
+    destruct (existsb (fun x => negb (isE x)) es) eqn:Ee.
+    - assert (Hlf : existsb (is_valid CDeepEq) es = true) by exact Ee. rewrite Hlf.
+      destruct e as [w|].
+      + change (is_valid CDeepEq (Some w)) with true. cbn [andb]. rewrite Nat.eqb_refl, map_map. apply map_ext. intros [a|]; [|reflexivity].
+        unfold cmp_keeps, validate_to. cbn [validator_of cmp_entry fst]. destruct (deep_eq a w); reflexivity.
+      + change (is_valid CDeepEq None) with false. cbn [andb Bool.eqb negb].
+        clear. induction es as [|z l IH]; [reflexivity|]. cbn [List.length repeat map]. rewrite IH. reflexivity.
+    - change (existsb (is_valid CDeepEq) [None]) with false. cbn [andb].
+      destruct e as [w|].
+      + change (is_valid CDeepEq (Some w)) with true. cbn [Bool.eqb].
+        pose proof (Hnone eq_refl) as Hn. clear -Hn. induction es as [|z l IH]; [reflexivity|]. cbn [List.length repeat map].
+        rewrite (Hn z (or_introl eq_refl)). rewrite IH; [reflexivity|]. intros x Hx. apply Hn. right. exact Hx.
+      + change (is_valid CDeepEq None) with false. cbn [Bool.eqb negb].
+        clear. induction es as [|z l IH]; [reflexivity|]. cbn [List.length repeat map]. rewrite IH. reflexivity.
+  Qed.
+
+  Lemma holds_root_peq i j root vals : forallb rstep_ok i = true -> forallb rstep_ok j = true -> small root -> Forall small vals ->
+    holds (QCmp (cmp_left cfg i) (CP (root_pq cfg j) true) CDeepEq) root vals = map (peq_test i j root vals) vals.
+  Proof.
+    intros Hi Hj Hsm Hv. unfold cmp_left, filter_pq.
+    change (holds (QCmp (CP (PqCur ?n) false) (CP ?rp true) CDeepEq) root vals) with
+      (Spec.cmp_holds regex_match CDeepEq (List.length vals)
+         (let es0 := map (fun v => match sp n root (None, v) with x :: _ => Some (res_value (Spec.wrap x)) | [] => None end) vals in
+          if existsb (fun x => negb (isE x)) es0 then es0 else [None]) (hd None (Spec.operand ffun afun regex_match rp root vals))).
+    cbv zeta. rewrite (operand_root j root vals Hj Hsm). cbn [hd].
+    assert (E0 : map (fun v => match sp (clear_acc (delete_root (inner_root cfg i))) root (None, v) with x :: _ => Some (res_value (Spec.wrap x)) | [] => None end) vals
+                 = map (reach1 i) vals).
+    { apply map_ext_in. intros v Hin. rewrite Forall_forall in Hv. apply (operand_entry cfg ffun afun regex_match i root v Hi (Hv v Hin)). }
+    rewrite E0. rewrite <- (map_length (reach1 i) vals). rewrite (cmp_holds_deep _ _), map_map.
+    apply map_ext. intros v. unfold peq_test. destruct (root_entry j root) as [w|]; [reflexivity|]. f_equal. clear. induction vals as [|z l IH]; [reflexivity|]. cbn [map existsb]. rewrite IH. reflexivity.
+  Qed.
+
+  Lemma holds_bq b root vals : bq_ok b = true -> small root -> Forall small vals ->
+    holds (bq_query cfg parse_float b) root vals = map (bq_test root vals b) vals.
+  Proof.
+    intros Hb Hr Hv. pose proof (bq_ok_steps b Hb) as Hs. destruct b as [i|i|i o lit|i ne l|j|j|i o j|i ne j]; cbn [bq_query bq_test].
     - apply (holds_exists cfg ffun afun regex_match i root vals Hs Hv).
     - change (holds (QNot ?q) root vals) with (map negb (holds q root vals)).
       rewrite (holds_exists cfg ffun afun regex_match i root vals Hs Hv), map_map. reflexivity.
@@ -229,50 +283,54 @@ Section QueryAddr.
     - cbn [bq_ok] in Hb. apply andb_true_iff in Hb. destruct Hb as [Hb Ho]. apply andb_true_iff in Hb. destruct Hb as [_ Hj].
       apply andb_true_iff in Hj. destruct Hj as [Hj _].
       apply (holds_root_cmp i o j root vals Hs Hj Ho Hr Hv).
+    - cbn [bq_ok] in Hb. apply andb_true_iff in Hb. destruct Hb as [_ Hj]. apply andb_true_iff in Hj. destruct Hj as [Hj _].
+      cbv zeta. destruct ne.
+      + change (holds (QNot ?q) root vals) with (map negb (holds q root vals)). rewrite (holds_root_peq i j root vals Hs Hj Hr Hv), map_map. reflexivity.
+      + apply (holds_root_peq i j root vals Hs Hj Hr Hv).
   Qed.
 
   Lemma holds_and_fold bs : forall q0 h0 root vals, forallb bq_ok bs = true -> small root -> Forall small vals ->
     holds q0 root vals = map h0 vals ->
     holds (fold_left (fun q x => QAnd q (bq_query cfg parse_float x)) bs q0) root vals =
-    map (fun v => fold_left (fun a x => a && bq_test root x v) bs (h0 v)) vals.
+    map (fun v => fold_left (fun a x => a && bq_test root vals x v) bs (h0 v)) vals.
   Proof.
     induction bs as [|x r IH]; intros q0 h0 root vals Hs Hr Hv H0; [exact H0|].
     cbn [forallb] in Hs. apply andb_true_iff in Hs. destruct Hs as [H1 H2]. cbn [fold_left].
-    apply (IH (QAnd q0 (bq_query cfg parse_float x)) (fun v => h0 v && bq_test root x v) root vals H2 Hr Hv).
+    apply (IH (QAnd q0 (bq_query cfg parse_float x)) (fun v => h0 v && bq_test root vals x v) root vals H2 Hr Hv).
     change (holds (QAnd ?a ?b) root vals) with (andb_lists (holds a root vals) (holds b root vals)).
     rewrite H0, (holds_bq x root vals H1 Hr Hv). apply andb_lists_map.
   Qed.
   Lemma holds_conj c root vals : conj_ok c = true -> small root -> Forall small vals ->
-    holds (conj_query cfg parse_float c) root vals = map (fun v => forallb (fun b => bq_test root b v) c) vals.
+    holds (conj_query cfg parse_float c) root vals = map (fun v => forallb (fun b => bq_test root vals b v) c) vals.
   Proof.
     intros Hc Hr Hv. destruct c as [|b bs]; [discriminate Hc|]. cbn [conj_ok forallb] in Hc. apply andb_true_iff in Hc. destruct Hc as [H1 H2].
-    cbn [conj_query]. rewrite (holds_and_fold bs _ (bq_test root b) root vals H2 Hr Hv (holds_bq b root vals H1 Hr Hv)).
+    cbn [conj_query]. rewrite (holds_and_fold bs _ (bq_test root vals b) root vals H2 Hr Hv (holds_bq b root vals H1 Hr Hv)).
     apply map_ext. intros v. rewrite fold_and. reflexivity.
   Qed.
   Lemma holds_or_fold cs : forall q0 h0 root vals, forallb conj_ok cs = true -> small root -> Forall small vals ->
     holds q0 root vals = map h0 vals ->
     holds (fold_left (fun q x => QOr q (conj_query cfg parse_float x)) cs q0) root vals =
-    map (fun v => fold_left (fun a x => a || forallb (fun b => bq_test root b v) x) cs (h0 v)) vals.
+    map (fun v => fold_left (fun a x => a || forallb (fun b => bq_test root vals b v) x) cs (h0 v)) vals.
   Proof.
     induction cs as [|x r IH]; intros q0 h0 root vals Hs Hr Hv H0; [exact H0|].
     cbn [forallb] in Hs. apply andb_true_iff in Hs. destruct Hs as [H1 H2]. cbn [fold_left].
-    apply (IH (QOr q0 (conj_query cfg parse_float x)) (fun v => h0 v || forallb (fun b => bq_test root b v) x) root vals H2 Hr Hv).
+    apply (IH (QOr q0 (conj_query cfg parse_float x)) (fun v => h0 v || forallb (fun b => bq_test root vals b v) x) root vals H2 Hr Hv).
     change (holds (QOr ?a ?b) root vals) with (orb_lists (holds a root vals) (holds b root vals)).
     rewrite H0, (holds_conj x root vals H1 Hr Hv). apply orb_lists_map.
   Qed.
   Lemma holds_dnf d root vals : dnf_ok d = true -> small root -> Forall small vals ->
-    holds (dnf_query cfg parse_float d) root vals = map (dnf_test root d) vals.
+    holds (dnf_query cfg parse_float d) root vals = map (dnf_test root vals d) vals.
   Proof.
     intros Hd Hr Hv. destruct d as [|c cs]; [discriminate Hd|]. cbn [dnf_ok forallb] in Hd. apply andb_true_iff in Hd. destruct Hd as [H1 H2].
-    cbn [dnf_query]. rewrite (holds_or_fold cs _ (fun v => forallb (fun b => bq_test root b v) c) root vals H2 Hr Hv (holds_conj c root vals H1 Hr Hv)).
+    cbn [dnf_query]. rewrite (holds_or_fold cs _ (fun v => forallb (fun b => bq_test root vals b v) c) root vals H2 Hr Hv (holds_conj c root vals H1 Hr Hv)).
     apply map_ext. intros v. rewrite fold_or. reflexivity.
   Qed.
 
   Lemma sp_fq d b next root p v : dnf_ok d = true -> small root -> small v ->
     sp (Node (fq_kind cfg parse_float d) b next) root (Some p, v) =
-    flat_map (ChainAddr.fwd ffun afun regex_match b next root) (navp (dnf_test root d) (p, v)).
+    flat_map (ChainAddr.fwd ffun afun regex_match b next root) (navp (dnf_test root (kids v) d) (p, v)).
   Proof.
-    intros Hd Hr Hsm. unfold fq_kind. apply (sp_kfilter ffun afun regex_match); [|exact Hsm].
+    intros Hd Hr Hsm. unfold fq_kind. apply (sp_kfilter_l ffun afun regex_match _ (fun vals => dnf_test root vals d)); [|exact Hsm].
     intros vals Hv. apply holds_dnf; assumption.
   Qed.
 End QueryAddr.
